@@ -62,10 +62,6 @@ func VerifEvents() {
 			}
 		}
 	}
-	if cached && nsubs == 2 {
-		// recorded finding: the first subscription strips the dependent steps off the plan object the cache shares
-		verifKnown("C14-subscription-strips-cached-plan", subs[0].query == subs[1].query)
-	}
 	vWs = &vWsWorld{client: client}
 	done := make(chan struct{}, 8)
 	vWs.upScript = func(up *vConn, n int) {
